@@ -177,19 +177,19 @@ fn main() {
             println!("inverse(-x)|Floor = {}   -inverse(x)|Ceiling = {}", a, b);
             a == b
         }
-        // C05: exhaustive native sweep of all strings up to <maxlen> over the alphabet {0,1,7,+,-,.,e,E,_,x,space}
+        // C05: exhaustive native sweep of all strings up to <maxlen> over the alphabet {0,1,7,+,-,.,e,E,_,x,space,U+00BD}
         // against a reference recogniser of the numeral grammar (used to turn a failed Kani acceptance check into a
         // concrete failing input); prints the mismatching strings
         "parse_sweep" => {
             let maxlen: usize = args[2].parse().unwrap();
-            let alpha = [b'0', b'1', b'7', b'+', b'-', b'.', b'e', b'E', b'_', b'x', b' '];
+            let alpha = ['0', '1', '7', '+', '-', '.', 'e', 'E', '_', 'x', ' ', '\u{bd}'];
             let mut bad: Vec<String> = vec![];
             let mut count = 0u64;
             let mut idx = vec![0usize; maxlen];
             for len in 0..=maxlen {
                 for v in idx.iter_mut() { *v = 0; }
                 loop {
-                    let s: String = idx[..len].iter().map(|&i| alpha[i] as char).collect();
+                    let s: String = idx[..len].iter().map(|&i| alpha[i]).collect();
                     count += 1;
                     let got = std::panic::catch_unwind(|| BigDecimal::from_str(&s));
                     let want = grammar_accepts(s.as_bytes());
